@@ -84,6 +84,8 @@ def __enter__(r): pass
 def __leave__(r): pass
 def __caught__(k, e, m=()): pass
 def __set_ie__(v): _rt.ignore_errors(v)
+def __set_res__(r): __import__("pysnark.fixedpoint").fixedpoint.resolution = r
+def __set_bl__(b): _rt.bitlength = b
 def __cv__(c): return 0
 def __term__(mode): _side({"ev": "term", "mode": mode, "trace": _dump()})
 '''
